@@ -49,6 +49,10 @@ CONSTANTS
   KF_FirstRcptClass = FALSE
   KF_RsetBypass = FALSE
   KF_RcptBeforeMail = %s
+  Tls = "off"
+  PeerTls = FALSE
+  Creds = FALSE
+  PeerAuth = FALSE
 INVARIANT C06_SenderVerdict
 INVARIANT C06_RecipientVerdict
 INVARIANT C06_ContentVerdict
